@@ -399,7 +399,9 @@ pub struct Ctx {
     pub tier: Tier,
     pub seed: u64,
     pub config: String,
+    /// how many shards may run at the same time (VERIF_THREADS, default: the cores, at most 16)
     pub threads: usize,
+    gate: (Mutex<usize>, std::sync::Condvar),
     pub verif_dir: String,
     pub known: Vec<Known>,
     pub strict: bool,
@@ -560,7 +562,30 @@ impl<'c> Local<'c> {
     }
 }
 
+/// The work of every search and sweep is always dealt to 16 shards (seeds and case order do not depend
+/// on the machine); `Ctx::threads` only limits how many of them run at once.
+pub const SHARDS: usize = 16;
+
+pub struct Slot<'c>(&'c Ctx);
+impl Drop for Slot<'_> {
+    fn drop(&mut self) {
+        let (m, cv) = &self.0.gate;
+        *m.lock().unwrap() -= 1;
+        cv.notify_one();
+    }
+}
+
 impl Ctx {
+    fn slot(&self) -> Slot<'_> {
+        let (m, cv) = &self.gate;
+        let mut n = m.lock().unwrap();
+        while *n >= self.threads.max(1) {
+            n = cv.wait(n).unwrap();
+        }
+        *n += 1;
+        Slot(self)
+    }
+
     pub fn new(property: &str, tier: Tier, seed: u64, config: &str, verif_dir: &str, known: Vec<Known>) -> Ctx {
         let threads = std::env::var("VERIF_THREADS").ok().and_then(|s| s.parse().ok()).unwrap_or_else(|| {
             std::thread::available_parallelism().map(|n| n.get()).unwrap_or(8).min(16)
@@ -571,6 +596,7 @@ impl Ctx {
             seed,
             config: config.to_string(),
             threads,
+            gate: (Mutex::new(0), std::sync::Condvar::new()),
             verif_dir: verif_dir.to_string(),
             known,
             strict: false,
@@ -640,7 +666,7 @@ impl Ctx {
         if self.stopped() || self.filtered_out(sub.name) {
             return;
         }
-        let shards = self.threads.max(1);
+        let shards = SHARDS;
         let per = cases.div_ceil(shards);
         std::thread::scope(|sc| {
             for shard in 0..shards {
@@ -648,6 +674,7 @@ impl Ctx {
                 std::thread::Builder::new()
                     .stack_size(256 << 20)
                     .spawn_scoped(sc, move || {
+                        let _slot = self.slot();
                         let local = RefCell::new(Local::new(self, sub.name));
                         let failed: RefCell<Option<Fail>> = RefCell::new(None);
                         let config = Config {
@@ -723,12 +750,13 @@ impl Ctx {
         if self.stopped() || self.filtered_out(sub.name) {
             return;
         }
-        let shards = self.threads.max(1);
+        let shards = SHARDS;
         std::thread::scope(|sc| {
             for shard in 0..shards {
                 std::thread::Builder::new()
                     .stack_size(256 << 20)
                     .spawn_scoped(sc, move || {
+                        let _slot = self.slot();
                         let mut local = Local::new(self, sub.name);
                         local.distinct_by_construction = distinct_by_construction;
                         let mut emit = |case: &[u8]| -> bool {
@@ -910,10 +938,13 @@ impl Ctx {
 
     /// Run `body` on `threads` threads with shard indices; generic helper for custom loops.
     pub fn par(&self, body: &(dyn Fn(usize, usize) + Sync)) {
-        let shards = self.threads.max(1);
+        let shards = SHARDS;
         std::thread::scope(|sc| {
             for shard in 0..shards {
-                std::thread::Builder::new().stack_size(256 << 20).spawn_scoped(sc, move || body(shard, shards)).unwrap();
+                std::thread::Builder::new().stack_size(256 << 20).spawn_scoped(sc, move || {
+                    let _slot = self.slot();
+                    body(shard, shards)
+                }).unwrap();
             }
         });
     }
